@@ -131,51 +131,53 @@ type Engine struct {
 	entryIdx   int
 
 	// per-path state
-	globals      map[*ssa.Global]*Value
-	nondets      []nondetRec
-	auxCount     int
-	gors         []*Gor
-	cur          *Gor
-	multi        bool
-	preempts     int
-	steps        int64
-	budget       int64
-	depth        int
-	opaqueSeq    int
-	cells        map[any]*cellMeta
-	mutexes      map[*Value]*mutexState
-	rws          map[*Value]*rwState
-	wgs          map[*Value]*wgState
-	atomics      map[*Value]*atomicState
-	raceOn       bool
-	maxGors      int
-	observes     []string
-	clock        int64
-	fnIDs        map[*ssa.Function]uint64
-	symNames     map[string]Value // type key -> symbolic reflect name
-	docSeq       int
-	extErrs      map[string]Value
-	timeLocs     map[string]*Value
-	pathCover    map[string]bool
-	onceDone     map[*Value]bool
-	syncMaps     map[*Value]*Map
-	schedLog     []schedEv
-	concrete     bool // conformance mode: random concrete inputs, no solver
-	rng          *rand.Rand
-	ctrace       []string // assertion / observation trace of a conformance run
-	pointLog     []string
-	pointTrace   bool
-	siteCache    map[string]bool
-	sitePosCache map[token.Pos]bool
-	pkgDir       string
-	decided      map[*Term]bool
-	concretized  map[*Term]*big.Int
-	usedVars     map[string]bool
-	noNumStr     bool
-	ptrIDs       map[*Value]uint64
-	initSet      map[*ssa.Package]bool
-	rtypePtr     types.Type
-	stepCtr      int64
+	globals       map[*ssa.Global]*Value
+	nondets       []nondetRec
+	auxCount      int
+	gors          []*Gor
+	cur           *Gor
+	multi         bool
+	preempts      int
+	steps         int64
+	budget        int64
+	depth         int
+	opaqueSeq     int
+	cells         map[any]*cellMeta
+	mutexes       map[*Value]*mutexState
+	rws           map[*Value]*rwState
+	wgs           map[*Value]*wgState
+	atomics       map[*Value]*atomicState
+	raceOn        bool
+	maxGors       int
+	observes      []string
+	clock         int64
+	fnIDs         map[*ssa.Function]uint64
+	symNames      map[string]Value // type key -> symbolic reflect name
+	docSeq        int
+	extErrs       map[string]Value
+	timeLocs      map[string]*Value
+	pathCover     map[string]bool
+	onceDone      map[*Value]bool
+	syncMaps      map[*Value]*Map
+	schedLog      []schedEv
+	concrete      bool // conformance mode: random concrete inputs, no solver
+	rng           *rand.Rand
+	ctrace        []string // assertion / observation trace of a conformance run
+	pointLog      []string
+	pointTrace    bool
+	siteCache     map[string]bool
+	jsonUseNumber bool
+	opaqueText    map[*OpaqueStr]*Term // per path: text variables of opaque strings compared as SMT strings
+	sitePosCache  map[token.Pos]bool
+	pkgDir        string
+	decided       map[*Term]bool
+	concretized   map[*Term]*big.Int
+	usedVars      map[string]bool
+	noNumStr      bool
+	ptrIDs        map[*Value]uint64
+	initSet       map[*ssa.Package]bool
+	rtypePtr      types.Type
+	stepCtr       int64
 
 	// path end plumbing
 	pathEnd  chan struct{}
@@ -872,6 +874,7 @@ func (e *Engine) resetPath() {
 	e.extErrs = map[string]Value{}
 	e.timeLocs = map[string]*Value{}
 	e.pathCover = map[string]bool{}
+	e.opaqueText = nil
 	e.onceDone = map[*Value]bool{}
 	e.syncMaps = map[*Value]*Map{}
 	e.schedLog = nil
